@@ -109,6 +109,19 @@ CHECKS = {
         'array; TensorGenerator returns exactly the wrapped entries; rank_1_update / aca3d_update kernels (transliterated) equal their definitions.',
    note='Trusted: z3, symsparse stub, numpy indexing as the oracle for index expressions, reals for doubles. Not applicable part: QR/SVD based operations and ACA/ALS/GTA.',
    technique='symbolic execution of real Python source on object arrays + z3; index expressions by exhaustive solver-driven forking'),
+ 'C07': dict(
+   category='other', design_ref='4/C07',
+   text='Bounded symbolic verification: the spline function classes and every geometry constructor/operation of bspline.py/geometry.py are exec\'d from source on an '
+        'abstract B-spline basis (fresh solver variables per (knot vector, node, derivative order) constrained only by what C02 proves: local support with a symbolic '
+        'first-active index, partition of unity, derivative sums zero, end-point interpolation) with symbolic coefficients, weights, points, offsets, matrices and angles. '
+        'z3 proves for source dimension 1-3 and scalar/vector/matrix targets that single-point, grid and scattered evaluation, Jacobians and Hessians agree with the '
+        'tensor-contraction definition (x column first, (xx,xy,xz,yy,yz,zz) order), that NURBS values/Jacobians/Hessians satisfy the Leibniz relations of a quotient, that '
+        'composition/boundary restriction/user functions evaluate the documented map, that every operation denotes the documented map and leaves its operand unchanged, '
+        'and (real basis kernels, symbolic parameter t, angle and radius) that circular arcs lie on the exact circle with the documented end points; circle, disk and annulus '
+        'to relative 1e-12 (float trig constants).',
+   note='Trusted: z3, the abstract-basis contract (= C02), ratnorm (division clearing; inputs with a vanishing divisor are outside the claim), symnp/symsparse, reals for doubles. '
+        'Bound: degrees 1-2 / 2-4 dofs per axis in the abstract basis, 1-2 nodes per axis; larger NURBS binary operations at coefficient level.',
+   technique='symbolic execution of real Python source on an abstract basis + z3 (polynomial identities after division clearing, NRA for arcs)'),
 }
 
 NA = {
@@ -147,7 +160,7 @@ def main():
                   'source_commits': [], 'add_only': True},
         'engines': [
             {'name': 'symx', 'path': 'symx/', 'serves_properties': sorted(CHECKS), 'kind_free_text': 'forking symbolic executor over z3 Real/Int proxies running real Python/numpy source (own code)'},
-            {'name': 'cyx', 'path': 'cyx/', 'serves_properties': [p for p in ('C01','C02','C08','C09','C11','C15','C18','C19') if p in CHECKS], 'kind_free_text': 'Cython-subset to Python transliterator so .pyx kernels and generated assemblers run under symx'},
+            {'name': 'cyx', 'path': 'cyx/', 'serves_properties': [p for p in ('C01','C02','C07','C08','C09','C11','C15','C18','C19') if p in CHECKS], 'kind_free_text': 'Cython-subset to Python transliterator so .pyx kernels and generated assemblers run under symx'},
         ],
         'checks': checks,
         'not_applicable': na,
